@@ -35,6 +35,12 @@ def load_findings():
     return json.load(open(p)).get('findings', [])
 
 
+def _match(f, oid):
+    if 'regex' in f:
+        return re.search(f['regex'], oid) is not None
+    return fnmatch.fnmatch(oid, f['match'])
+
+
 def _safe(oid):
     return re.sub(r'[^A-Za-z0-9_.-]+', '_', oid)[:150]
 
@@ -106,6 +112,7 @@ def report(prop, tier, seed, mod, results, t0):
     inconclusive = []
     known_inconclusive = []
     samples = []
+    fact_samples = []
     nq = 0
     st_time = 0.0
     by_solver = {}
@@ -115,6 +122,7 @@ def report(prop, tier, seed, mod, results, t0):
     functions = set(getattr(mod, 'META', {}).get('functions', []))
     vac = 0
     paths = 0
+    stats = {}
     for res in results:
         for e in res['errors']:
             harness.append('%s: %s' % (res['name'], e))
@@ -136,6 +144,8 @@ def report(prop, tier, seed, mod, results, t0):
         elif res['vacuity'] not in (None, 'sat', 'unsat'):
             harness.append('%s: vacuity witness not obtained (%s)' % (res['name'], res['vacuity']))
         paths += res['paths']
+        for k_, v_ in res.get('stats', {}).items():
+            stats[k_] = stats.get(k_, 0) + v_
         for rec in res['results']:
             stt = rec['status']
             if 'cross' in rec:
@@ -149,7 +159,7 @@ def report(prop, tier, seed, mod, results, t0):
             is_known = None
             if stt == 'sat':
                 rp = rec.get('replay') or {}
-                if not rp.get('reproduced') and any(fnmatch.fnmatch(rec['oid'], f['match']) for f in known):
+                if not rp.get('reproduced') and any(_match(f, rec['oid']) for f in known):
                     known_inconclusive.append(rec['oid'])
                     continue
                 if not rp.get('reproduced'):
@@ -161,7 +171,7 @@ def report(prop, tier, seed, mod, results, t0):
                                        % (res['name'], rec['oid'], rp.get('why', rp)))
                     continue
                 for i, f in enumerate(known):
-                    if fnmatch.fnmatch(rec['oid'], f['match']):
+                    if _match(f, rec['oid']):
                         is_known = i
                         break
                 path = write_replay(prop, res, rec)
@@ -170,13 +180,16 @@ def report(prop, tier, seed, mod, results, t0):
                     continue
                 violations.append((res, rec, path))
                 continue
-            if stt != 'unsat' and any(fnmatch.fnmatch(rec['oid'], f['match']) for f in known):
+            if stt != 'unsat' and any(_match(f, rec['oid']) for f in known):
                 known_inconclusive.append(rec['oid'])      # family already recorded as violated
                 continue
             if rec['required']:
                 n_ob += 1
                 if stt == 'unsat':
                     n_dis += 1
+                    if len(samples) < 3 and not rec.get('nq') and len(fact_samples) < 4:
+                        fact_samples.append({'obligation': rec['oid'], 'scenario': res['name'], 'verdict': 'holds',
+                                             'decided_by': rec.get('solver')})
                     if len(samples) < 6 and rec.get('nq'):
                         samples.append({'obligation': rec['oid'], 'scenario': res['name'], 'verdict': 'unsat',
                                         'solver': rec.get('solver'), 'solver_s': rec.get('time'),
@@ -224,7 +237,7 @@ def report(prop, tier, seed, mod, results, t0):
         'rule': meta.get('rule', 'one obligation = one closed formula pre => goal over the symbolic trace of the real '
                                  'code; distinct by obligation id (grid x dims x term x location); non-trivial = needed a solver query '
                                  'or a structural comparison of traces'),
-        'samples': samples or [{'note': 'no solver-decided obligation in this run'}],
+        'samples': (samples + fact_samples) or [{'note': 'no obligation recorded'}],
         'functions_encoded': sorted(functions),
         'bounds': meta.get('bounds', ''),
         'outside_bounds': meta.get('outside', ''),
@@ -243,9 +256,11 @@ def report(prop, tier, seed, mod, results, t0):
         'exit_code': code,
     }
     if level == 'model_checking':
-        cov['states'] = max(1, paths)
-        cov['transitions'] = max(1, n_ob + n_opt)
-        cov['traces_validated_against_impl'] = val_pts
+        cov['states'] = max(1, stats.get('states', paths))
+        cov['transitions'] = max(1, stats.get('transitions', n_ob + n_opt))
+        cov['traces_validated_against_impl'] = stats.get('traces_validated', val_pts)
+    for k_, v_ in stats.items():
+        cov.setdefault('counters', {})[k_] = v_
     if 'exhaustive' in meta:
         cov['exhaustive'] = meta['exhaustive']
     ev = {'property_id': prop, 'tier': tier, 'seed': seed, 'level': level, 'coverage': cov,
